@@ -406,7 +406,7 @@ def monitor_c11(ctx):
 
 
 def monitor_c17(ctx):
-    pays = _hist_payloads(ctx, 'mon-c17', sz(ctx, 250, 4000), ['dict', 'lru2', 'evict'])
+    pays = _hist_payloads(ctx, 'mon-c17', sz(ctx, 250, 4000), ['dict', 'lru2', 'evict', 'ddict', 'readthrough'])
     return _run('c17', 'c17', pays, 'a cached (dict / LRU(2) / always-evicting) and an uncached SqParser driven in lock-step over the same history; '
                 'attribute-level snapshot of every cached tree around each call')
 
@@ -493,10 +493,20 @@ def monitor_c15(ctx):
         a, b = layoutgen.layout_pair(r)
         p = {'plain': a, 'decorated': b}
         if i % 10 == 0:
-            p['poison'] = [None, r.choice(['f(1', '[1, 2', '{1: 2', 'g(1 +'])]
+            p['poison'] = [None, r.choice(['f(1', '[1, 2', '{1: 2', 'g(1 +', ['f(a, (b, c), d)', 1], ['f(a, [b, {c: d', 3], ['x = (a $ b', 9], ['a\nb\n(c\nd', 3],
+                                             ['[a, b', 9]])]
         pays.append(p)
-    return _run('c15', 'c15', pays, 'metamorphic: parse(plain) == parse(decorated) for random programs and random combinations of the rewrites at '
+    a = _run('c15', 'c15', pays, 'metamorphic: parse(plain) == parse(decorated) for random programs and random combinations of the rewrites at '
                 'every applicable position; every 10th pair also after an earlier rejected unbalanced text on the same parser')
+    recv = ['hs', 'hl', 'hd', 'hn', 'hb', 'hi', '"s t"', '5', '[2, 1]', 'None', '{"a": 1}', 'True', '1.5', '[]', '""']
+    fns = [('lower', []), ('upper', []), ('strip', []), ('startswith', ['"A"']), ('endswith', ['"c"']), ('len', []), ('str', []), ('abs', []), ('keys', []),
+           ('sorted', []), ('reversed', []), ('sum', []), ('join', ['","']), ('split', ['" "']), ('replace', ['"a"', '"b"']), ('get', ['"k"']), ('int', []),
+           ('float', []), ('round', []), ('pretty', []), ('hstr_upper', []), ('hlist_copy', []), ('index_of', ['1']), ('min', []), ('values', []), ('push', ['1'])]
+    triples = [[r0, f, a] for r0 in recv for f, a in fns]
+    b = _run('c15_calls', 'c15_calls', [{'triples': triples[i:i + 40]} for i in range(0, len(triples), 40)],
+             'the three call spellings r.f(a) / r | f(a) / f(r, a) evaluated for receivers of every type x builtins and host-supplied unbound '
+             'methods: same value, same exception class')
+    return _merge('c15', [a, b])
 
 
 # ------------------------------------------------------------------ C16
@@ -522,6 +532,11 @@ def monitor_c16(ctx):
         else:
             s = ''.join(chr(r.choice([r.randrange(32, 127), r.randrange(0x20, 0x3000), r.randrange(0, 32)])) for _ in range(r.randint(1, 10)))
         pays.append({'src': s, 'apis': ['parse', 'names', 'eval']})
+    # string literals with every kind of backslash escape a lexer might decide to decode (well-formed, malformed, out of range)
+    for lit in ['"\\U00110000"', '"\\UFFFFFFFF"', '"\\U0010FFFF"', '"\\xZZ"', '"\\x4"', '"\\u12"', '"\\uD800"', '"\\N{bad}"', '"\\N{LATIN SMALL LETTER A}"',
+                '"\\777"', '"\\8"', '"\\x00"', '"\\0"', '"\\c"', "'\\U00110000'", 'r"\\U00110000"', '"a\\', '"\\"', '"\\\\U00110000"', '"\\u0041\\U00110000"',
+                'x = "\\UFFFFFFFF"; x', '["\\xZZ"]', 'f("\\U99999999")', '%\\U00110000%', '"\\' + 'U' * 50 + '"']:
+        pays.append({'src': lit, 'apis': ['parse', 'names', 'eval']})
     planted = ['undefined_var', 'nofn(1)', 'u += 1', '[1,2][5]', '{"a": 1}["b"]', 'pop([])', '"abc"[7]', 'items({"a": 1})[0][2]', 'enumerate([1])[0][5]',
                'for', '1 $ 2', '1 +', 'f(', 'x = [0]\nx[5]', 'd = {}\nd["k"]',
                # every spelling of a name: %...% lexemes (with blanks, dots, operators inside), names next to keywords
@@ -560,7 +575,12 @@ def monitor_c16(ctx):
     b = _run('c10_missing', 'c10_missing', [{'cases': [['y', None], ['nofn(1)', None], ['y += 1', None], ['%u v%', None], ['x', None], ['len([1])', None],
                                                        ['[y]', None], ['1 + y', None], ['f = v => w9; f(1)', None], ['y.push(1)', None], ['del y[0]', None]]}],
              'undefined names / functions under host mappings that answer for absent keys (Counter / defaultdict / __missing__) are still ParserErrors')
-    return _merge('c16', [a, b])
+    RE = [{'src': 'a = 1 + 1 + 1 + 1; sub("1"); b = a + 1 + 1 + 1 + 1 + 1 + 1 + 1; [a, b, a + b + 1 + 1 + 1]', 'reenter': True},
+          {'src': 'map(l, v => [sub("2 + 2"), v + 1 + 1][1])', 'reenter': True, 'names': {'l': [1, 2, 3, 4, 5, 6]}},
+          {'src': 'f = n => (0 if n < 1 else [sub("n9 = 1"), f(n - 1)][1]); f(6)', 'reenter': True}]
+    c = _run('c01_scen', 'c01_scen', [{'scenarios': [x]} for x in RE],
+             'exceeding the op budget is reported (as the ops-limit ParserError) also when a host callable re-enters eval on the same parser midway')
+    return _merge('c16', [a, b, c])
 
 
 # ------------------------------------------------------------------ C18
@@ -609,5 +629,15 @@ def monitor_c20(ctx):
         pays.append({'src': layoutgen.error_text(r), 'fresh': False})
     for s in ['1;2 3', '[1,\n2] x', '1 +\n2 2', 'a = 1;\nb = a stray', 'a;\r\nb;\nc d', 'f(1,\n2);\n[3,\n4]; x y', '1 +', 'f(', 'x = [\n1,']:
         pays.append({'src': s, 'fresh': True})
+    # earlier calls on the same parser; offending tokens of every length
+    for i in range(sz(ctx, 300, 3000)):
+        r = random.Random(f'{ctx["seed"]}/mon-c20-pre/{i}')
+        pre = r.choice([['names', 'a\nb\nc\nd', 9], ['names', 'f(a,\n(b,\nc', 2], ['names', 'x = 1\ny = 2\nz', 3], ['names', 'a\n$\nb', 9],
+                        ['parse', 'a = 1\nb = )', 0], ['parse', '[1,\n2,\n3', 0], ['names', '"s"\n\n\nq', 1]])
+        pays.append({'src': layoutgen.error_text(r), 'fresh': r.random() < 0.5, 'pre': pre})
+    for L in (50, 150, 190, 250, 1000, 5000):
+        for tokmk in (lambda n: '"' + 'a' * n + '"', lambda n: 'n' * n, lambda n: '%' + 'p' * n + '%', lambda n: '1' * n, lambda n: '1.' + '5' * n):
+            pays.append({'src': 'x = 1\ny = 2 ' + tokmk(L), 'fresh': True})
+            pays.append({'src': '[1,\n2]\n3 ' + tokmk(L) + ' 4', 'fresh': True})
     return _run('c20', 'c20', pays, 'valid multi-line programs broken by a stray token / truncation: the physical line of the offending token is '
                 'recomputed from its lexpos (count of \\n before it) and must be the line the message names; end of text -> end-of-input message')
